@@ -495,19 +495,29 @@ func ruleClassify(c *Ctx) {
 	f := fromIP
 	key := short(f)
 	reg := c.NewRegion(f, 3, inPkg)
-	dbs := reg.FindCalls(func(_ string, call *ssa.Call) bool { return call.Call.IsInvoke() && call.Call.Method.Name() == "GetIPInfo" })
+	dbs := reg.FindCalls(func(_ string, call *ssa.Call) bool {
+		return call.Call.IsInvoke() && call.Call.Method.Name() == "GetIPInfo"
+	})
 	gucs := reg.FindCalls(func(n string, _ *ssa.Call) bool { return n == "(net.IP).IsGlobalUnicast" })
 	if len(dbs) == 0 || len(gucs) == 0 {
 		c.Undecided("CLASSIFY", key+":anchors", p.Pos(f.Pos()), "the helper lost its database call or its IsGlobalUnicast test")
 		return
 	}
-	isMap := func(v ssa.Value) bool { g, _ := p.AllFrom(v, deepF, func(x ssa.Value) bool { return eng.IsParam(x, f, 0) }); return g }
-	isIP := func(v ssa.Value) bool { g, _ := p.AllFrom(v, deepF, func(x ssa.Value) bool { return eng.IsParam(x, f, 1) }); return g }
+	isMap := func(v ssa.Value) bool {
+		g, _ := p.AllFrom(v, deepF, func(x ssa.Value) bool { return eng.IsParam(x, f, 0) })
+		return g
+	}
+	isIP := func(v ssa.Value) bool {
+		g, _ := p.AllFrom(v, deepF, func(x ssa.Value) bool { return eng.IsParam(x, f, 1) })
+		return g
+	}
 	gMapNN := c.NewGuard(func(fn *ssa.Function) eng.EdgeSet { _, nn := p.NilEdges(fn, isMap); return nn })
 	gMapNil := c.NewGuard(func(fn *ssa.Function) eng.EdgeSet { n, _ := p.NilEdges(fn, isMap); return n })
 	gIPNN := c.NewGuard(func(fn *ssa.Function) eng.EdgeSet { _, nn := p.NilEdges(fn, isIP); return nn })
 	gIPNil := c.NewGuard(func(fn *ssa.Function) eng.EdgeSet { n, _ := p.NilEdges(fn, isIP); return n })
-	isGuc := func(call *ssa.Call) bool { return eng.CalleeName(&call.Call) == "(net.IP).IsGlobalUnicast" && isIP(call.Call.Args[0]) }
+	isGuc := func(call *ssa.Call) bool {
+		return eng.CalleeName(&call.Call) == "(net.IP).IsGlobalUnicast" && isIP(call.Call.Args[0])
+	}
 	gGlobal := c.BoolGuard(isGuc, true)
 	gLocal := c.BoolGuard(isGuc, false)
 	for _, guc := range gucs {
@@ -614,7 +624,10 @@ func ruleClassify(c *Ctx) {
 		})
 		return nn
 	})
-	isAddr := func(v ssa.Value) bool { g2, _ := p.AllFrom(v, deepF, func(x ssa.Value) bool { return eng.IsParam(x, g, 1) }); return g2 }
+	isAddr := func(v ssa.Value) bool {
+		g2, _ := p.AllFrom(v, deepF, func(x ssa.Value) bool { return eng.IsParam(x, g, 1) })
+		return g2
+	}
 	gAddrNN := c.NewGuard(func(fn *ssa.Function) eng.EdgeSet { _, nn := p.NilEdges(fn, isAddr); return nn })
 	for _, inner := range inners {
 		c.CheckAt("CLASSIFY", gk+":lookup-only-after-parsing", inner, areg.CutDeep(inner, gSplitOK) && areg.CutDeep(inner, gParseOK), "the IP helper is called before the address was successfully split and parsed")
